@@ -443,9 +443,10 @@ class IRGenerator:
                             item.lineno, item.path)
                     env = self._get_or_create_env(namespace.name)
                     imported_env = self._get_or_create_env(item.target)
-                    if namespace.name in imported_env:
-                        # Block circular imports. The Python backend can't
-                        # easily generate code for circular references.
+                    if self._env_imports_namespace(imported_env, namespace.name, set()):
+                        # Block circular imports, direct or through other
+                        # namespaces. The Python backend can't easily
+                        # generate code for circular references.
                         raise InvalidSpec(
                             'Circular import of namespaces %s and %s '
                             'detected.' %
@@ -466,6 +467,23 @@ class IRGenerator:
         if ast_node is None:
             return 'built-in'
         return '%s:%d' % (ast_node.path, ast_node.lineno)
+
+    @classmethod
+    def _env_imports_namespace(cls, env, namespace_name, seen):
+        """
+        Whether the namespace of `env` imports `namespace_name`, directly or
+        through the namespaces it imports.
+        """
+        for name, value in list(env.items()):
+            if not isinstance(value, Environment):
+                continue
+            if name == namespace_name:
+                return True
+            if name not in seen:
+                seen.add(name)
+                if cls._env_imports_namespace(value, namespace_name, seen):
+                    return True
+        return False
 
     def _create_alias(self, env, item):
         # NOTE: I don't like supporting forward references for aliases
